@@ -10,8 +10,10 @@ Model of `afm/read.go` (`afm.Read`), `afm/write.go` (`Metrics.Write`) and of the
   `Metrics.Glyphs` holds no `nil` pointers in the model.
 * `float64` fields are IEEE-754 bit patterns (`UInt64`, `PsVerif.Base.SoftFloat`), NaNs
   canonicalised to one quiet NaN.
-* `bufio.Scanner` line semantics: lines end at `\n`, one trailing `\r` is dropped, a final
-  line without `\n` counts.  `Read` calls `scanner.Buffer(nil, math.MaxInt)`, so there is no
+* `bufio.Scanner` with the split function `scanLines` of `afm/read.go`: a line ends at `\n`, at
+  `\r\n` or at a bare `\r`; a final piece without line end counts unless it is empty (the
+  function's waiting for more data at a buffer boundary does not show, the model sees the whole
+  text).  `Read` calls `scanner.Buffer(nil, math.MaxInt)`, so there is no
   limit on the length of a line (`bufio.ErrTooLong` would need a buffer of more than
   `MaxInt/2` bytes, which no input that fits into memory reaches).
 * `strings.Fields` splits at the Unicode white space characters (UTF-8 decoded the way Go does:
@@ -98,23 +100,21 @@ def kinf : Bytes := [105,110,102]  -- "inf"
 def kinfinity : Bytes := [105,110,102,105,110,105,116,121]  -- "infinity"
 def knan : Bytes := [110,97,110]  -- "nan"
 
-/-! ## lines (`bufio.Scanner` with `ScanLines`) -/
+/-! ## lines (`bufio.Scanner` with the split function `scanLines` of `afm/read.go`) -/
 
-/-- split at `\n`; a final piece without `\n` is a line unless it is empty -/
-def splitLines : Bytes → List Bytes
+/-- the lines the scanner delivers: a line ends at `\n`, at `\r\n` or at a bare `\r` (also a `\r`
+at the very end of the text); a final piece without line end is a line unless it is empty -/
+def scanLines : Bytes → List Bytes
   | [] => []
-  | b :: bs =>
-    if b = 10 then [] :: splitLines bs
+  | [b] => if b = 10 ∨ b = 13 then [[]] else [[b]]
+  | b :: c :: bs =>
+    if b = 10 then [] :: scanLines (c :: bs)
+    else if b = 13 then
+      (if c = 10 then [] :: scanLines bs else [] :: scanLines (c :: bs))
     else
-      match splitLines bs with
+      match scanLines (c :: bs) with
       | [] => [[b]]
       | l :: ls => (b :: l) :: ls
-
-/-- `dropCR`: remove one trailing `\r` -/
-def dropCR : Bytes → Bytes
-  | [] => []
-  | [b] => if b = 13 then [] else [b]
-  | b :: c :: bs => b :: dropCR (c :: bs)
 
 /-! ## `strings.Fields`, `strings.Split`, `strings.Join` -/
 
@@ -563,9 +563,6 @@ def readLine (st : St) (line : Bytes) : Res St :=
 def readLines : St → List Bytes → Res St
   | st, [] => .ok st
   | st, l :: ls => (readLine st l).bind fun st' => readLines st' ls
-
-/-- the lines the scanner delivers -/
-def scanLines (t : Bytes) : List Bytes := (splitLines t).map dropCR
 
 /-- the scanner loop of `Read` and its result -/
 def readCore (t : Bytes) : Res Metrics :=
